@@ -427,7 +427,7 @@ theorem regression_F_C09c :
     returns -/
 def exKwide : Source := ⟨.chunk 3 ['T','T','G','C','A','A'], some (3, 10), [exFeat]⟩
 
-/-- a whole chromosome with EXPLICIT bounds `[0, 4)` narrower than the feature `[6, 10)`… -/
+/-- a whole chromosome with EXPLICIT bounds `[0, 8)` narrower than the feature `[6, 10)` -/
 def exWnarrow : Source := ⟨.whole exSeq, some (0, 8), [exFeat]⟩
 
 /-- F-C09d, regression (repaired in /repo 7f0e193).  BEFORE: a collection whose bounds exceed its sequence chunk —
@@ -444,6 +444,25 @@ theorem regression_F_C09d :
     ∧ subsetParent exWnarrow 0 10 = .ok (.chunk 0 8 ['A','C','G','T','T','G','C','A'])
     ∧ (expectPar exWnarrow 0 10).norm = (RPar.chunk 0 8 ['A','C','G','T','T','G','C','A']).norm :=
   ⟨rfl, rfl, by decide, rfl, rfl, by decide⟩
+
+theorem exFeat_hull : ∀ c ∈ [exFeat], ChildHull c := by
+  intro c hc; simp only [List.mem_singleton] at hc; subst hc; exact ⟨by decide, by decide⟩
+
+theorem exKwide_wf : SrcWF exKwide := ⟨exFeat_hull, by decide, by decide, ⟨by decide, by decide⟩⟩
+theorem exWnarrow_wf : SrcWF exWnarrow :=
+  ⟨exFeat_hull, by decide, by decide, ⟨by decide, by
+    intro c hc; simp only [exWnarrow, List.mem_singleton] at hc; subst hc; decide⟩⟩
+
+/-- … and the full clauses now hold on these sources: a position query touching the excess of the bounds, an
+    expansion over it, an id query keeping the member beyond the explicit bounds -/
+example : okQueryByPosition exKwide ⟨some 8, some 10, false, false, false⟩
+    (toAns (queryByPosition exKwide ⟨some 8, some 10, false, false, false⟩)) = true :=
+  query_by_position_meets_spec exKwide _ exKwide_wf (3, 10) rfl
+example : okQueryByPosition exKwide ⟨some 7, some 8, false, false, true⟩
+    (toAns (queryByPosition exKwide ⟨some 7, some 8, false, false, true⟩)) = true :=
+  query_by_position_meets_spec exKwide _ exKwide_wf (3, 10) rfl
+example : okQueryByGuids exWnarrow [2] (toAns (queryByGuids exWnarrow [2])) = true :=
+  query_by_guids_meets_spec exWnarrow exWnarrow_wf [2] (by decide) 0 8 rfl
 
 /-- the repair does not touch what already was right: inside the located range both versions agree -/
 theorem regression_F_C09d_agree_inside :
@@ -500,7 +519,7 @@ example : ∃ rp, subsetParent exKB 5 7 = .ok rp ∧ rp.norm = (expectPar exKB 5
 
 /-- bounds `[3, 10)` reaching beyond the chunk `[3, 9)`, range touching the excess -/
 example : ∃ rp, subsetParent exKwide 8 10 = .ok rp ∧ rp.norm = (expectPar exKwide 8 10).norm :=
-  subset_parent_is_expected exKwide ⟨by intro c hc; simp only [exKwide, List.mem_singleton] at hc; subst hc; exact ⟨by decide, by decide⟩, by decide, by decide, ⟨by decide, by decide⟩⟩ 3 10 rfl 8 10
+  subset_parent_is_expected exKwide exKwide_wf 3 10 rfl 8 10
     (fun _ => by decide)
 
 example : (memberSeq (.chunk 4 7 ['T','G','C']) exG2).norm = (expectMSeq (.chunk 4 7 ['T','G','C']) exG2).norm :=
